@@ -298,7 +298,7 @@ def load_module_from_file_object(
                 pep_bits = ts[0]
                 if PYTHON_VERSION_TRIPLE <= (2, 7):
                     pep_bits = ord(pep_bits)
-                if (pep_bits & 1) or magic_int == 3393:  # 3393 is 3.7.0beta3
+                if pep_bits & 1:
                     # SipHash
                     sip_hash = unpack("<Q", fp.read(8))[0]
                 else:
